@@ -13,7 +13,7 @@ from .common import method, unconditional_in, atom_text
 
 ZERO_LEGIT_KEYS = {'resid', '_old_resid', 'atomid', 'order', 'charge', 'charge_group', 'mass', 'index', 'res_min_dist', 'bond_type',
                    'minimum_force', 'lower_bound', 'upper_bound', 'decay_factor', 'decay_power', 'base_constant', 'level', 'weight'}
-ZERO_LEGIT_NAME_PARTS = ('resid', 'order', 'atomid')
+ZERO_LEGIT_NAME_PARTS = ('resid', 'order', 'atomid', 'idx', 'index')
 
 # truthiness uses that are about strings / lists, confirmed by reading: (module, function, text of the tested expression)
 TRUTHY_TRIAGE = {
@@ -34,7 +34,8 @@ def _zero_legit(e):
         return True
     if isinstance(e, ast.Attribute) and e.attr in ZERO_LEGIT_KEYS:
         return True
-    if isinstance(e, ast.Name) and (e.id in ZERO_LEGIT_KEYS or any(e.id == p or e.id.startswith(p + '_') or e.id.endswith('_' + p) for p in ZERO_LEGIT_NAME_PARTS)):
+    # (`idx_to_nodenum`, `name_to_idx` are tables, not an index)
+    if isinstance(e, ast.Name) and '_to_' not in e.id and (e.id in ZERO_LEGIT_KEYS or any(e.id == p or e.id.startswith(p + '_') or e.id.endswith('_' + p) for p in ZERO_LEGIT_NAME_PARTS)):
         return True
     return False
 
@@ -719,6 +720,34 @@ def reference_residue_rules(ck, rule):
         'mutation = mutation[0]' in u(grr) and 'if not are_all_equal(mutation):' in u(grr)
     ck.ob(rule, rgm.loc(grr), ok, 'the reference block is the block named by the mutation request when there is one (conflicting requests are an error), '
           'else the block of the residue name', key=rule + '|reference-block')
+    pm = rgm.func('_patch_modification')
+    if pm is not None and 'zip(non_anchor_idxs, range(' in u(pm) and 'nx.subgraph(modification, non_anchor_idxs)' in u(pm):
+        ck.analysed(rgm, pm)
+        subgraph_order_rule(ck, rule)
+
+
+def subgraph_order_rule(ck, rule):
+    """Molecule.subgraph lists its atoms in the order of the nodes it was given (the copies are made by walking the argument).  _patch_modification pairs the
+    atoms a modification adds with new node numbers by position ("under the assumption that .. it keeps the same order", its own comment): a sub-molecule in
+    any other order attaches the modification's bonds to the wrong added atoms."""
+    mol = ck.index.mod('vermouth/molecule.py')
+    sg = ck.need(method(mol.cls('Molecule'), 'subgraph'), 'Molecule.subgraph vanished')
+    ck.analysed(mol, sg)
+    param = param_names(sg)[1]
+    adds = [c for c in walk_local(sg) if isinstance(c, ast.Call) and call_attr(c) == 'add_nodes_from']
+    ok = len(adds) == 1
+    src = None
+    if ok:
+        src = adds[0].args[0]
+        if isinstance(src, ast.Name):
+            src = single_def(sg, src.id)
+        ok = isinstance(src, (ast.ListComp, ast.GeneratorExp)) and len(src.generators) == 1 and u(src.generators[0].iter) == param and not src.generators[0].ifs
+        # the argument may have been materialised into a list / tuple first -- not into a set, and not sorted
+        for a_ in assignments_to(sg, param):
+            if any(a_ is x for x in ast.walk(sg)) and getattr(a_, 'lineno', 0) < adds[0].lineno:
+                ok = ok and isinstance(a_, ast.Call) and call_name(a_) in ('list', 'tuple') and [u(x) for x in a_.args] == [param]
+    ck.ob(rule, mol.loc(sg), ok, 'Molecule.subgraph adds its atoms by walking the nodes it was given, in their order (source of the added nodes: `{}`)'.format(u(src)[:70] if src is not None else '?'),
+          key=rule + '|subgraph|argument-order')
 
 
 # ----------------------------------------------------------------------------------------------------------------------
